@@ -54,7 +54,12 @@ func genRigCase(r *rng.R) rigIn {
 	p.Types = []pType{
 		{Kind: "struct", Name: "Item", Pkg: "ctl", File: "types.go", Fields: []pField{{Name: "Name", Type: "string", Tag: `json:"name" validate:"required"`}, {Name: "Count", Type: "int", Tag: `json:"count"`}}},
 		{Kind: "enum", Name: "Color", Pkg: "ctl", File: "types.go", Base: "string", Consts: [][2]string{{"ColorRed", `"red"`}, {"ColorGreen", `"green"`}}},
+		// the same shape in another package: a parameter of the same NAME with a type from another package needs its own import alias
+		{Kind: "struct", Name: "Parcel", Pkg: "other", File: "models.go", Fields: []pField{{Name: "Name", Type: "string", Tag: `json:"name" validate:"required"`}, {Name: "Count", Type: "int", Tag: `json:"count"`}}},
+		{Kind: "struct", Name: "Failure", Pkg: "ctl", File: "types.go", Fields: []pField{{Name: "Err", Type: "error", Tag: `json:"-"`}, {Name: "Code", Type: "int", Tag: `json:"code"`}}},
 	}
+	p.Config.Globs = []string{"./ctl/*.go"}
+	expectRefused := r.Chance(1, 14)
 	reqs := []rigReq{}
 	rid := 0
 	add := func(q rigReq) {
@@ -139,7 +144,11 @@ func genRigCase(r *rng.R) rigIn {
 				switch r.Intn(3) {
 				case 0:
 					bodyKind = "json"
-					params = append(params, rigParam{name: "body", ty: "Item", loc: "Body", wire: "body"})
+					bt := "Item"
+					if ci == 1 || r.Chance(1, 3) {
+						bt = "other.Parcel"
+					}
+					params = append(params, rigParam{name: "body", ty: bt, loc: "Body", wire: "body"})
 				case 1:
 					bodyKind = "form"
 					for k := 1 + r.Intn(2); k > 0; k-- {
@@ -191,6 +200,10 @@ func genRigCase(r *rng.R) rigIn {
 			}
 			if r.Chance(1, 5) {
 				m.Annots = append(m.Annots, pAnnot{Name: "Response", Value: rng.Pick(r, []string{"201", "202"})})
+			}
+			if expectRefused && ci == 0 && mi == 0 {
+				// the last result only HAS an error field: the project must be refused, nothing generated
+				m.Results = []string{"string", "Failure"}
 			}
 			c.Methods = append(c.Methods, m)
 
@@ -282,6 +295,15 @@ func genRigCase(r *rng.R) rigIn {
 						add(build("uint-neg:"+prm.name, vals{prm.name: "-1"}, "", nil))
 					}
 				}
+				if _, isInt := rigIntRange[base]; isInt && prm.ptr && (prm.loc == "Query" || prm.loc == "FormField") {
+					add(build("empty-optional-int:"+prm.name, vals{prm.name: ""}, "", nil))
+				}
+				if base == "string" && prm.ptr && prm.loc == "Query" {
+					add(build("empty-optional-string:"+prm.name, vals{prm.name: ""}, "", nil))
+				}
+				if strings.HasPrefix(prm.ty, "[]") && base == "string" {
+					add(build("empty-first-of-slice:"+prm.name, vals{prm.name: ""}, "", nil))
+				}
 				if base == "bool" && r.Chance(1, 2) {
 					add(build("bool-bad:"+prm.name, vals{prm.name: rng.Pick(r, []string{"yes", "2", "tRuE"})}, "", nil))
 				}
@@ -299,12 +321,13 @@ func genRigCase(r *rng.R) rigIn {
 			if bodyKind == "json" {
 				add(build("body-missing-required", vals{"body": `{"count":3}`}, "", nil))
 				add(build("body-malformed", vals{"body": `{"name":`}, "", nil))
+				add(build("body-trailing-data", vals{"body": rng.Pick(r, []string{`{"name":"x","count":1} trailing`, `{"name":"x","count":1}{"name":"y","count":2}`, `{"name":"x","count":1}]`})}, "", nil))
 			}
 			add(rigReq{Route: "", Kind: "undocumented", Method: verb, Path: fmt.Sprintf("%s/nope%d_%d", strings.TrimSuffix(prefix, "/"), ci, mi)})
 		}
 		p.Controllers = append(p.Controllers, c)
 	}
-	return rigIn{Project: p, Requests: reqs}
+	return rigIn{Project: p, Requests: reqs, ExpectRefused: expectRefused}
 }
 
 func genRig(seed uint64, n int, tier string, emit func(string, []string, any)) {
